@@ -1,3 +1,5 @@
+//go:build !bkern
+
 // Package kern is the simulation kernel, back end A ("token").
 //
 // Simulated tasks are real goroutines, but exactly one holds the token at any time.
@@ -17,6 +19,7 @@ import (
 	"runtime/debug"
 	"sync/atomic"
 	"syscall"
+	"testing"
 	"time"
 	"unsafe"
 )
@@ -84,6 +87,9 @@ type Sim struct {
 
 // S is the simulation currently running in this process (nil between runs).
 var S *Sim
+
+// T is the test the current run belongs to (only back end B needs it).
+var T *testing.T
 
 func pipe() [2]int {
 	var p [2]int
@@ -507,6 +513,15 @@ func (s *Sim) teardown() {
 	syscall.Close(s.back[0])
 	syscall.Close(s.back[1])
 	S = nil
+}
+
+// RunThen is Run followed by f (back end B runs f inside the run's bubble; here it simply comes after, unless the
+// run ended in a deadlock or out of budget: then nothing is quiescent and f is skipped).
+func (s *Sim) RunThen(maxSteps int, f func()) {
+	s.Run(maxSteps)
+	if !s.Dead && !s.Budget {
+		f()
+	}
 }
 
 // Tasks returns the task list (after Run: for inspecting panics).
